@@ -420,9 +420,11 @@ def magnet(metafile: str, version: int = 0) -> str:
 
     web_sources = [""]
     if "url-list" in meta:
-        web_sources = [
-            "&ws=" + quote_plus(urllist) for urllist in meta["url-list"]
-        ]
+        url_list = meta["url-list"]
+        # BEP 19 allows a single web seed to be stored as a plain string
+        if isinstance(url_list, (str, bytes)):
+            url_list = [url_list]
+        web_sources = ["&ws=" + quote_plus(urllist) for urllist in url_list]
 
     web_seed = "".join(web_sources)
 
